@@ -147,7 +147,7 @@ macro_rules! ifr_instance {
         }
     };
 }
-// @verif prop=C06,C01 tier=quick timeout=600 bounds=index-known(<200)-or-derived-from-highest-rotated-index(<200-or-none),rename-succeeds
+// @verif prop=C06,C01,C15 tier=quick timeout=600 bounds=index-known(<200)-or-derived-from-highest-rotated-index(<200-or-none),rename-succeeds
 // index_for_rcurrent: the closed rCURRENT file is renamed to exactly r<index>, index = the remembered one or (at start) one above the highest existing rotated number (0 if none) - never an existing number; the next index is index+1.
 ifr_instance!(c06_index_for_rcurrent_ok, 0);
 // @verif prop=C06,C19 tier=quick timeout=600 bounds=same,rename-reports-ENOENT(no-current-file)
